@@ -167,6 +167,15 @@ def gen_render_graph(rng, plain=False):
     members = [v for v in vids if rng.random() < 0.8]
     rng.shuffle(members)
     n = sum({"NV": 1, "NE": 1, "NL": 1, "NU": 2}.get(op[0], 0) for op in ops)
+    if rng.random() < 0.25:
+        # a universe is a vertex too: an inner universe as a member of the rendered one, possibly linked to by an edge
+        inner = n
+        ops.append(["NU", [v for v in vids if rng.random() < 0.3], None])
+        n += 2
+        members.insert(rng.randrange(len(members) + 1), inner)
+        if vids and rng.random() < 0.6:
+            ops.append(["NE", rng.choice(["KDir", "KUnd"]), rng.choice(vids), inner])
+            n += 1
     ops.append(["NU", members, None])
     return ops, n, vids
 
